@@ -191,6 +191,7 @@ static void runScenario(const std::string& prop, size_t idx, const Scenario& sc,
   }
   ex.explore([&](vp::Explorer& e) {
     body(e);
+    if (getenv("VERIF_TRACE_RUNS") && e.executions % (uint64_t)atol(getenv("VERIF_TRACE_RUNS")) == 0) fprintf(stderr, "run %llu: %s\n", (unsigned long long)e.executions, e.choicesStr().c_str());
     if ((e.executions & 0x3ff) == 0 && R.expired()) e.stopAll = true;
   }, slice, sc.slices);
   if (getenv("VERIF_VERBOSE")) fprintf(stderr, "%s: %llu executions, %zu states, %.1fs\n", sc.name.c_str(), (unsigned long long)ex.executions, ex.visited.size(), vp::rawNow() - R.t0);
@@ -558,8 +559,9 @@ static std::vector<Scenario> scenariosC20(bool thorough, const vp::Args& A) {
   std::vector<Scenario> v;
   int L0 = (int)A.getInt("len", thorough ? 8 : 7);
   for (int enh = 0; enh < 2; enh++) {
-    for (int cfg = 0; cfg < 5; cfg++) {
+    for (int cfg = 0; cfg < 7; cfg++) {
       int L = L0 + ((thorough && (cfg == 0 || cfg == 2)) ? 1 : 0);
+      if (cfg >= 5) L = (int)A.getInt("len2", thorough ? 5 : 3);
       Scenario s;
       s.enhanced = enh;
       s.alphabet = Bytes{0xA9, 0x00, 0x01, 0xFF, 0x10, 0x36, 0xFE, 0x05};
@@ -569,6 +571,13 @@ static std::vector<Scenario> scenariosC20(bool thorough, const vp::Args& A) {
       s.preSyns = L;
       s.gapSyns = 1;
       s.tailSyns = 2;
+      if (cfg >= 5) {
+        // answering, and a long command (NN 6 / 16: longer than every id the answer key supports) for an answered
+        // address precedes the probe; one further deviation inside it
+        Bytes m = ref::unhex(cfg == 5 ? "103605360610010203a905" : "1036053610100102030405060708090a0b0c0d0e0f");
+        s.foreign.push_back(askScript(m, (int)ref::wirePart(ref::unhex("02a9aa")).size(), 0));
+        s.gapSyns = 2;  // two deviations shared by the long telegram and the gap before the probe
+      }
       s.foreign.push_back(telScript(mk(C20_PROBE)));
       s.freezeAtLastScript = true;
       s.k = 100; s.c = 100; s.r = 1; s.unbounded = true;
@@ -576,7 +585,7 @@ static std::vector<Scenario> scenariosC20(bool thorough, const vp::Args& A) {
       switch (cfg) {
         case 0: break;                                  // passive
         case 1: s.genSyn = true; s.lockCount = 3; break;
-        case 2:                                         // answering for the own slave address and a foreign one
+        case 2: case 5: case 6:                         // answering for the own slave address and a foreign one
           s.answer = true;
           s.answers.push_back(AnswerSpec{-1, 0x36, 0xfe, 0x05, Bytes{}, ref::unhex("0136")});
           s.answers.push_back(AnswerSpec{-1, 0x36, 0x05, 0x36, Bytes{0x10}, ref::unhex("02a9aa")});
